@@ -120,6 +120,7 @@ NP_UNARY = {
     "asarray": lambda x: x, "array": lambda x: x, "asanyarray": lambda x: x, "float64": lambda x: x,
     "ravel": lambda x: x, "squeeze": lambda x: x, "atleast_1d": lambda x: x, "real": lambda x: x,
     "square": lambda x: x ** 2, "reciprocal": lambda x: 1 / x, "imag": lambda x: sp.Integer(0),
+    "negative": lambda x: -x, "positive": lambda x: x,
 }
 NP_BINARY = {
     "divide": lambda a, b: a / b, "true_divide": lambda a, b: a / b, "multiply": lambda a, b: a * b,
@@ -575,6 +576,8 @@ class Sym:
             return self._call(target, args, kw, depth + 1)
         if kind == "np":
             return self.np_call(last, args, kw, n)
+        if isinstance(n.func, ast.Name) and n.func.id in ("tuple", "list") and len(args) == 1 and not kw and isinstance(args[0], tuple):
+            return args[0]        # tuple(<finite comprehension>) / list(<display>): the elements themselves
         raise Unsupported("call %s" % norm(n)[:60])
 
     def np_call(self, last, args, kw, n):
